@@ -348,7 +348,7 @@ def L1(a: int, b: int, r: int) -> bool:
 
 def _shards(tier):
     if tier == "quick":
-        cfgs = [({"gens": 2, "steps": 2, "contexts": 3}, 3), ({"gens": 1, "steps": 3, "contexts": 4}, 3)]
+        cfgs = [({"gens": 2, "steps": 2, "contexts": 3}, 3), ({"gens": 1, "steps": 3, "contexts": 3}, 3), ({"gens": 1, "steps": 2, "contexts": 4}, 2)]
     else:
         cfgs = [({"gens": 2, "steps": 2, "contexts": 4}, 3), ({"gens": 1, "steps": 4, "contexts": 2}, 4), ({"gens": 1, "steps": 3, "contexts": 4}, 3)]
     out = []
@@ -380,6 +380,6 @@ OBLIGATIONS = [
         shards=_shards,
         twin=[{"gens": 2, "steps": 2, "contexts": 3, "twin_label": "switching"}],
         timeout={"quick": 100, "thorough": 1500},
-        bounds={"quick": "2 generators (4 body kinds each) x <= 2 driver steps, and 1 generator x <= 3 steps with a 4th driver context (a different contextvars.Context); each step: any live generator x 6 operations x 3-4 driver contexts", "thorough": "2 generators x <= 2 steps and 1 generator x <= 3 steps with 4 driver contexts; 1 generator x <= 4 steps with 2"},
+        bounds={"quick": "2 generators (4 body kinds each) x <= 2 driver steps, 1 generator x <= 3 steps, and 1 generator x <= 2 steps with a 4th driver context (a different contextvars.Context); each step: any live generator x 6 operations x 3-4 driver contexts", "thorough": "2 generators x <= 2 steps and 1 generator x <= 3 steps with 4 driver contexts; 1 generator x <= 4 steps with 2"},
     ),
 ]
